@@ -99,7 +99,8 @@ static mvsim_rng g_rng_sched, g_rng_rand, g_rng_clock, g_rng_poison;
 static uint64_t g_clock_ns, g_clock_last_read_step, g_clock_last_value, g_clock_start_ns;
 static mvsim_probe_cb_t g_probe_cb;
 static int g_rr_left;
-static uint64_t g_func_steps;
+static uint64_t g_func_steps, g_mem_ctr;
+static uintptr_t c_lo, c_hi;   /* flavour mem: cached own-stack interval; dropped whenever a stack is handed out or released */
 static int g_bug_permille;
 static uint64_t g_pct_points[8];
 static long g_pct_low;
@@ -366,7 +367,7 @@ void mvsim_begin_run(const mvsim_runcfg *c) {
   memset(&g_st, 0, sizeof g_st);
   memset(g_pairmap, 0, sizeof g_pairmap);
   for (int i = 0; i < NSLOTS; i++) { g_w[i].state = W_UNUSED; g_w[i].id = i; }
-  g_func_steps = 0; g_progress = 1; g_sweeps = 0; g_progress_at_sweep = 0; g_drain = 0; g_nspawned = 0; g_ndone = 0;
+  g_func_steps = 0; g_mem_ctr = 0; c_lo = c_hi = 0; g_progress = 1; g_sweeps = 0; g_progress_at_sweep = 0; g_drain = 0; g_nspawned = 0; g_ndone = 0;
   g_rr_left = 0;
   mvsim_rng_seed(&g_rng_sched, c->run_seed, 1);
   mvsim_rng_seed(&g_rng_rand, c->run_seed, 2);
@@ -650,6 +651,22 @@ void __cyg_profile_func_exit(void *fn, void *site) {
   mvsim_enter(&r);
 }
 
+/* memory-access-granularity schedule points (build flavour "mem", see mvsim_tsan.c): every second non-stack
+   access of library code; scheduling decisions only, like the function-granularity points */
+static int own_stack_range(uintptr_t sp, uintptr_t *lo, uintptr_t *hi);
+void mvsim_mem_point(const void *addr, const void *spp) {
+  if (!g_active || g_in_dispatch) return;
+  /* accesses to the running context's own stack are private.  The stack is identified exactly (ledger of live
+     thread stacks, worker coroutine stacks), not by distance: the decision must not depend on the address layout,
+     which depends on what ran earlier in the process. */
+  uintptr_t sp = (uintptr_t)spp, a = (uintptr_t)addr;
+  if (!(sp >= c_lo && sp < c_hi)) { if (!own_stack_range(sp, &c_lo, &c_hi)) { c_lo = sp - (1u << 22); c_hi = sp + (1u << 22); } }   /* unknown = the process's initial stack */
+  if (a >= c_lo && a < c_hi) return;
+  if (++g_mem_ctr & 1) return;
+  struct mvreq r = { RQ_FUNC, MYTH_VS_N_SITES + 3, (void *)addr, 0 };
+  mvsim_enter(&r);
+}
+
 void myth_verif_spin(int site) {
   if (!g_active) return;
   ALIGN_CHECK(site);
@@ -869,6 +886,7 @@ long mvsim_ledger_allocated(int kind) {
 }
 
 static void live_add(uintptr_t lo, uintptr_t hi) {
+  c_lo = c_hi = 0;
   for (int i = 0; i < g_nlive; i++)
     if (lo < g_live[i].hi && g_live[i].lo < hi)
       mvsim_violation("LEDGER", "stack [%#lx,%#lx) handed out while overlapping live stack [%#lx,%#lx)",
@@ -877,7 +895,17 @@ static void live_add(uintptr_t lo, uintptr_t hi) {
   g_live[g_nlive].lo = lo; g_live[g_nlive].hi = hi; g_nlive++;
 }
 static void live_del(uintptr_t lo) {
+  c_lo = c_hi = 0;
   for (int i = 0; i < g_nlive; i++) if (g_live[i].lo == lo) { g_live[i] = g_live[--g_nlive]; return; }
+}
+
+int mvsim_lib_sched_stack_range(unsigned long sp, unsigned long *lo, unsigned long *hi);
+static int own_stack_range(uintptr_t sp, uintptr_t *lo, uintptr_t *hi) {
+  for (int i = 0; i < g_nlive; i++) if (sp >= g_live[i].lo && sp < g_live[i].hi) { *lo = g_live[i].lo; *hi = g_live[i].hi; return 1; }
+  for (int i = 0; i < NSLOTS; i++) if (g_w[i].stack && sp >= (uintptr_t)g_w[i].stack && sp < (uintptr_t)g_w[i].stack + g_w[i].stack_size) {
+    *lo = (uintptr_t)g_w[i].stack; *hi = *lo + g_w[i].stack_size; return 1; }
+  { unsigned long l, h; if (mvsim_lib_sched_stack_range(sp, &l, &h)) { *lo = l; *hi = h; return 1; } }
+  return 0;    /* the process's initial stack (worker 0 / the simulator itself) */
 }
 
 void myth_verif_alloc(int kind, void *p, size_t size, int rank) {
